@@ -35,6 +35,8 @@ type SearchCfg struct {
 	NoReconcile func(s *world.State) bool     // optional: states in which the reconcile is not run
 	Deadline    time.Time
 	MaxStates   int
+	World       *world.World                                                           // optional: reuse this world (with Workers=1) instead of building one
+	Workers     int                                                                    // parallel expansion workers (0: all cores); 1 when the caller parallelises over searches
 	OnEdge      func(from *world.State, label string, rec *world.Rec, to *world.State) // optional observer
 	// OnFault judges a faulted reconcile against the fault-free one from the same state.
 	OnFault func(from *world.State, label string, base, faulted *world.Rec) []oracle.Violation
@@ -137,7 +139,7 @@ func faultsApplicable(c *world.Call, kinds []string) []string {
 			if c.IsWrite() {
 				out = append(out, k)
 			}
-		case world.FConflict:
+		case world.FConflict, world.FConflictFresh:
 			if c.Verb == "update" {
 				out = append(out, k)
 			}
@@ -170,8 +172,15 @@ func Search(rep *Report, cfg SearchCfg, seeds []Seed) *Graph {
 	}
 	g.Cfg = cfg
 	nw := Workers()
+	if cfg.Workers > 0 {
+		nw = cfg.Workers
+	}
 	worlds := make([]*world.World, nw)
 	for i := range worlds {
+		if cfg.World != nil && i == 0 {
+			worlds[i] = cfg.World
+			continue
+		}
 		worlds[i] = world.New()
 	}
 	type item struct {
